@@ -15,7 +15,7 @@ PROPS = {
     'C03': dict(mc=[('MC_Pool', None)], world=['kf1', 'random', 'withdraw', 'matrix']),
     'C04': dict(mc=[('MC_Pool', None), ('MC_Math', ['withdraw'])], world=['random', 'withdraw']),
     'C05': dict(mc=[('MC_Pool', None), ('MC_Math', ['share', 'first'])], math=['share'], world=['random', 'matrix', 'withdraw']),
-    'C06': dict(mc=[('MC_Pool', None), ('MC_Math', ['swap'])], math=['swap'], world=['random']),
+    'C06': dict(mc=[('MC_Pool', None), ('MC_Math', ['swap'])], math=['swap'], world=['random', 'matrix']),
     'C07': dict(mc=[('MC_Pool', None)], world=['random', 'matrix', 'withdraw']),
     'C08': dict(mc=[('MC_BigNat', None)], math=['arith'], level='exploration'),
     'C09': dict(mc=[('MC_Pool', None)], world=['matrix', 'random']),
